@@ -200,11 +200,34 @@ def guard_on_result(fn, pt, call_pts):
 
 
 def c021_fsync_core(ctx, R, f):
-    fs = P.call_points(f, r"FsyncCoalescingCore.*::work::fsync$|::work::fsync$")
+    # the function that issues the sync: found by what it does (a function of the crate that calls libc::fdatasync / fsync), wherever it
+    # is nested and whatever it is called (work::fsync today)
+    fs = []
+    for b_, t_ in f.calls():
+        g_ = ctx.prog.fns.get(t_.get("callee") or "")
+        if g_ is not None and g_.crate == "sst" and P.call_points(g_, r"^libc::(\w+::)*(fdatasync|fsync)$"):
+            fs.append(P.term_pt(f, b_.idx))
+    direct = False
+    if not fs:
+        fs = P.call_points(f, r"^libc::(\w+::)*(fdatasync|fsync)$")      # the sync function was a new helper that was looked through
+        direct = bool(fs)
     if not ctx.floor(R, f.skey + " fsync call", len(fs), 1):
         return
+    SYNC_FNS = {P.term_at(f, p_).get("callee") for p_ in fs}
+    SYNC_SK = {strip_generics(k_) for k_ in SYNC_FNS if k_}
+
+    def from_sync(srcs_):
+        """some source is the verdict of the sync: its return value, or a comparison of it (`fdatasync(fd) == 0`)"""
+        for s_ in srcs_:
+            if s_["k"] == "call" and s_["callee"] in SYNC_SK:
+                return True
+            if s_["k"] == "bin":
+                rv_ = s_["st"]["rv"]
+                if any(x_["k"] == "call" and x_["callee"] in SYNC_SK for o_ in (rv_["a"], rv_["b"]) for x_ in P.origins(f, o_)):
+                    return True
+        return False
     # the local fsync fn must reach fdatasync/fsync
-    for pt in fs:
+    for pt in ([] if direct else fs):
         callee = P.term_at(f, pt).get("callee")
         g = ctx.prog.fns.get(callee)
         ok = False
@@ -249,7 +272,7 @@ def c021_fsync_core(ctx, R, f):
     for pt in rep:
         t = P.term_at(f, pt)
         srcs = P.origins(f, t["args"][0])
-        from_fsync = from_fsync or any(s["k"] == "call" and s["callee"].endswith("::work::fsync") for s in srcs)
+        from_fsync = from_fsync or from_sync(srcs)
         for q, v in const_points(t["args"][0], pt, set()):
             ok = v in (0, 1)
             if v == 1:
@@ -259,7 +282,7 @@ def c021_fsync_core(ctx, R, f):
                       "a constant true is returned to waiters without the synced watermark covering them", pt=q)
         others = [s for s in srcs if s["k"] not in ("const", "call", "bin", "un") and not (s["k"] == "param")]
         ctx.check(R, f, "output-origin", any(s["k"] in ("const", "call") for s in srcs) and
-                  all(s["callee"].endswith("::work::fsync") or re.search(r"(^|::)(branch|clone|from|into)$", s["callee"]) for s in srcs if s["k"] == "call"),
+                  all(s["callee"] in SYNC_SK or re.search(r"(^|::)(branch|clone|from|into)$", s["callee"]) for s in srcs if s["k"] == "call"),
                   "the output is a constant or the return value of the local fsync()",
                   "the fsync queue's output does not originate in fsync()'s return value", pt=pt)
     ctx.check(R, f, "output-from-fsync", from_fsync, "some output is the verdict of the local fsync()", "no output of the fsync queue derives from fsync()'s return value")
@@ -267,7 +290,7 @@ def c021_fsync_core(ctx, R, f):
     for pt in P.field_writes(f, r"FsyncCoalescingCore$", "synced"):
         ok = False
         for bb, lab, ss in K.guards(f, pt):
-            if lab == "sw:1" and any(s["k"] == "call" and s["callee"].endswith("::work::fsync") for s in ss):
+            if lab == "sw:1" and from_sync(ss):
                 ok = True
         ctx.check(R, f, "synced-write", ok, "self.synced advances only when fsync() returned true",
                   "self.synced is advanced without a successful fsync", pt=pt)
